@@ -42,8 +42,12 @@ class ServerSide:
         self.closed = True
 
 
+CUR = {'proc': 'parent', 'crossed': False}
+
+
 class ClientConn:
     def __init__(self, server, authkey):
+        self.owner = CUR['proc']        # the process that opened this connection
         self.server = server
         self.authkey = authkey
         self.to_server = collections.deque()
@@ -53,6 +57,8 @@ class ClientConn:
         self.dispatched = 0
 
     def send(self, msg):
+        if self.owner != CUR['proc']:
+            CUR['crossed'] = True       # a process talks on a connection another process opened: one request/reply stream for two
         self.to_server.append(copy.deepcopy(msg))
 
     def recv(self):
@@ -299,5 +305,116 @@ def h_shared_and_locks_twin(code: int) -> bool:
     """
     try:
         return _shared_and_locks(code, True)
+    except Prune:
+        return True
+
+
+# ---------------------------------------------------------------------------
+# proxies in a forked child: the child's whole life runs in-process through the real BaseProcess._bootstrap (registry cleared,
+# real after-fork hooks, target, real exit function with its finalizer passes), then the parent goes on
+
+def _child_life(target):
+    import sys
+    import multiprocessing.util as mu
+    import billiard.process as bproc
+    import billiard.util as bu
+    saved = (bproc._current_process, bproc._children, bproc._process_counter, sys.stdin, dict(mu._finalizer_registry), bu.info, bu.debug)
+    CUR['proc'] = 'child'
+    try:
+        sys.stdin = None
+        P = type('P', (bproc.BaseProcess,), {'_start_method': None})
+        return P(target=target)._bootstrap()
+    finally:
+        CUR['proc'] = 'parent'
+        mu._exiting = False
+        mu._finalizer_registry.clear()
+        mu._finalizer_registry.update(saved[4])
+        (bproc._current_process, bproc._children, bproc._process_counter, sys.stdin) = saved[:4]
+
+
+def _fork_child(code, want):
+    nd = NDCode(code)
+    parent_called = nd.flag()          # the parent has already talked to the server through the proxy (a connection exists)
+    nprox = 1 + nd.draw(0, 1)
+    child_op = nd.draw(0, 2)           # what the child does with the inherited proxy: nothing, a read, a write
+    parent_after = nd.flag()
+    with untraced():
+        CUR.update(proc='parent', crossed=False)
+        m, srv = setup()
+        twin = [1, 2]
+        first = m.list([1, 2])
+        ident = first._id
+        proxies = [first]
+        if nprox == 2:
+            proxies.append(bm.RebuildProxy(type(first), first._token, 'verif', {'authkey': b'k'}))
+        if parent_called:
+            if len(first) != 2:
+                return fail('C20:call:result-differs-from-local-object:list:__len__')
+        rc0 = srv.id_to_refcount.get(ident)
+        if rc0 != nprox:
+            return fail('C20:refcount:differs-from-live-proxies')
+        seen = {}
+        keep = [(q, q._close, q._manager, set(q._idset)) for q in proxies]
+        tls = first._tls
+        tls_before = dict(tls.__dict__)
+
+        def target():
+            # the child holds copies of every proxy: the server counts them for as long as the child lives
+            seen['rc'] = srv.id_to_refcount.get(ident)
+            q = proxies[len(proxies) - 1]
+            if child_op == 1:
+                seen['got'] = q[0]
+            elif child_op == 2:
+                q.append(7)
+                twin.append(7)
+        exitcode = _child_life(target)
+        for q, close, manager, ids in keep:      # the parent's own copies are untouched by what the child did to its copies
+            q._close, q._manager = close, manager
+            q._idset.clear()
+            q._idset.update(ids)
+        tls.__dict__.clear()
+        tls.__dict__.update(tls_before)
+        if want:
+            return False if (exitcode == 0 and child_op == 2) else True
+        if exitcode != 0:
+            return fail('C20:fork:child-failed-using-the-inherited-proxy')
+        if CUR['crossed']:
+            return fail('C20:fork:child-talks-on-the-connection-the-parent-opened')
+        if seen.get('rc') != 2 * nprox:
+            return fail('C20:fork:child-copies-of-the-proxies-not-counted')
+        if child_op == 1 and seen.get('got') != 1:
+            return fail('C20:call:result-differs-from-local-object:list:__getitem__')
+        if srv.id_to_refcount.get(ident) != nprox or ident not in srv.id_to_obj:
+            return fail('C20:fork:child-exit-did-not-release-exactly-its-references')
+        if parent_after:
+            if first._getvalue() != twin:
+                return fail('C20:call:state-differs-from-local-object:list')
+        if CUR['crossed']:
+            return fail('C20:fork:parent-talks-on-a-connection-the-child-opened')
+        while proxies:
+            proxies.pop()._close()
+        if ident in srv.id_to_obj or ident in srv.id_to_refcount:
+            return fail('C20:lifetime:referent-kept-after-last-proxy-released')
+        return True
+
+
+def h_fork_child(code: int) -> bool:
+    """
+    pre: 0 <= code < CODEMAX
+    post: _
+    """
+    try:
+        return _fork_child(code, False)
+    except Prune:
+        return True
+
+
+def h_fork_child_twin(code: int) -> bool:
+    """
+    pre: 0 <= code < CODEMAX
+    post: _
+    """
+    try:
+        return _fork_child(code, True)
     except Prune:
         return True
